@@ -51,9 +51,10 @@ COMPONENTS = {
 }
 ASSUMPTIONS = [
     'single caller; the schedule is the gateway plan (reads, next, close)',
-    'CONTENT_LENGTH values a conforming gateway cannot produce (non-numeric, '
-    'negative) are not generated',
-    'with an injected read error only I1-I3 are asserted',
+    'negative CONTENT_LENGTH values are not generated (a non-numeric one is: '
+    'wsgiref hands the header over verbatim)',
+    'with an injected read error I1-I3 and the closing of the context are '
+    'asserted',
     'with CONTENT_LENGTH absent "longer than max_content_length" is not '
     'decidable within the read bound: only the bound (I6) is asserted',
     'a gateway that never calls close() (drain_no_close) is not conformant: '
@@ -67,7 +68,8 @@ PAIRS = [('soap11', 'soap11'), ('soap12', 'soap12'), ('xml', 'xml'),
 
 BLOCK_LENGTHS = [1, 2, 3, 7, 64, 8192]
 ML_MODES = ['zero', 'one', 'body-1', 'body', 'body+1', 'big']
-CL_MODES = ['equal', 'absent', 'empty', 'smaller', 'larger', 'over_limit']
+CL_MODES = ['equal', 'absent', 'empty', 'smaller', 'larger', 'over_limit',
+            'garbage']      # (wsgiref hands the header over verbatim)
 READ_PLANS = ['full', 'short', 'eof_early', 'overlong', 'none', 'error']
 CONSUMERS = ['drain', 'abort', 'close_only', 'drain_no_close']
 
@@ -227,7 +229,7 @@ def _resolve(case, body_len):
           'body': body_len, 'body+1': body_len + 1,
           'big': 2 * 1024 * 1024}[case['ml_mode']]
     clm = case['cl_mode']
-    if clm in ('equal', 'absent', 'empty'):
+    if clm in ('equal', 'absent', 'empty', 'garbage'):
         cl = clm
     elif clm == 'smaller':
         cl = max(0, body_len - 1 - case['plan_args'][0])
@@ -342,7 +344,7 @@ def run_case(case):
     cons = case['consumer']
     consumer = (cons[0], cons[1]) if cons[0] == 'abort' else (cons[0],)
     target = wsgi
-    lint = bool(case.get('lint')) and cl != 'empty' and \
+    lint = bool(case.get('lint')) and cl not in ('empty', 'garbage') and \
         case['plan_kind'] != 'none' and \
         case['consumer'][0] != 'drain_no_close' and \
         case.get('env_mode') != 'mount_point'   # (the linter indexes PATH_INFO)
@@ -460,7 +462,25 @@ def judge(case, uni, req, o, ml, cl, simfiles=(), handles=()):
                                                          type(c).__name__)
             break
     if read_err:
+        # the stream failed under the application: the error may go to the
+        # gateway, but the context that was created is closed all the same
+        n_closed = len([e for e in ev if e[1] == 'ctx_closed'])
+        n_created = len([e for e in ev if e[1] == 'ctx_created'])
+        if n_created and n_closed != 1 and (o.exc_where == 'call' or
+                      (o.returned and cons != 'drain_no_close')):
+            viol('I7-closed-count-after-read-error', str(n_closed),
+                 'wsgi.input.read() failed: method_context_created fired %d '
+                 'times, method_context_closed %d times' % (n_created,
+                                                           n_closed))
         return _result(case, o, V)
+    if cl == 'garbage' and not is_wsdl and o.returned and o.exhausted:
+        # a Content-Length that is not a number: a client error, no user code
+        if uni.ctl.n_calls() != 0:
+            viol('I5-user-code-ran-bad-length', '', 'user code ran for a '
+                 'request whose Content-Length is not a number')
+        if not canon.is_client_code(_fault_code(out_prot, o)):
+            viol('I5-bad-length-not-refused', str(_fault_code(out_prot, o)),
+                 'Content-Length "abc" answered with %r' % (o.status,))
     # I4 -------------------------------------------------------------------
     if o.exhausted and o.headers is not None and o.body is not None:
         clh = o.header('Content-Length')
